@@ -256,6 +256,15 @@ def handwritten_corpus(ctx, optsets):
     for first_group in (True, False):
         run_compose_schema(ctx, {"_files": {"main.xsd": same_name(first_group)}, "name": "group and attribute group of one name"},
                            [{"doc": d, "uniform": True} for d in gdocs], optsets[:2])
+    # a REPEATING sequence in the base type and another one in the extension: each keeps its own rounds, in order
+    ext_seq = ('<xs:schema xmlns:xs="http://www.w3.org/2001/XMLSchema" targetNamespace="urn:e" xmlns:t="urn:e" elementFormDefault="qualified">'
+               '<xs:complexType name="Base"><xs:sequence maxOccurs="unbounded"><xs:element name="a" type="xs:int"/><xs:element name="b" type="xs:string"/></xs:sequence></xs:complexType>'
+               '<xs:complexType name="Ext"><xs:complexContent><xs:extension base="t:Base"><xs:sequence maxOccurs="unbounded"><xs:element name="c" type="xs:int"/>'
+               '<xs:element name="d" type="xs:string"/></xs:sequence></xs:extension></xs:complexContent></xs:complexType><xs:element name="root" type="t:Ext"/></xs:schema>')
+    edocs = ['<t:root xmlns:t="urn:e"><t:a>1</t:a><t:b>x</t:b><t:a>2</t:a><t:b>y</t:b><t:c>3</t:c><t:d>z</t:d><t:c>4</t:c><t:d>w</t:d></t:root>',
+             '<t:root xmlns:t="urn:e"><t:a>1</t:a><t:b>x</t:b><t:c>3</t:c><t:d>z</t:d><t:c>4</t:c><t:d>w</t:d><t:c>5</t:c><t:d>v</t:d></t:root>']
+    run_compose_schema(ctx, {"_files": {"main.xsd": ext_seq}, "name": "repeating sequences in a base type and in its extension"},
+                       [{"doc": d, "uniform": True} for d in edocs], optsets[:2])
     schema = {"_files": {"main.xsd": twins}, "name": "same-named local elements with different anonymous types"}
     run_compose_schema(ctx, schema, [{"doc": d, "uniform": True} for d in docs], optsets)
 
